@@ -159,6 +159,11 @@ def refDelFeeder (fs : List (Bytes × Bool)) (a : Bytes) : List (Bytes × Bool) 
 def storeDiff (i : Nat) (m : St) (obs : List Price) : List Json :=
   if allPrices m != obs then [verdictDiff i "store" (storeJson (allPrices m)) (storeJson obs)] else []
 
+/-- after a reported store disagreement the model continues from the store the implementation
+reported, so that one divergence is reported once and `asCoded` stays meaningful afterwards. -/
+def resync (m : St) (obs : List Price) : St :=
+  if allPrices m == obs then m else { m with prices := obs.foldl (fun kv p => KV.set p.key p kv) [] }
+
 def feederDiff (i : Nat) (m : St) (fobs : List (String × Bool × Bool)) : List Json :=
   fobs.filterMap fun (a, f, ac) =>
     let mf := getFeeder m (sb a)
@@ -207,14 +212,14 @@ def handle (s : S) (i : Nat) (j : Json) : S × List Json :=
               [verdictViol i "C16.feeder_gate" (Json.mkObj [("op", op), ("signer", signerS),
                 ("why", "a failed feed changed the price store")])]
              else [])
-          finish i { s with model := m', ref := ref', iStore := store } (diffs ++ viols)
+          finish i { s with model := resync m' store, ref := ref', iStore := store } (diffs ++ viols)
         | _, _, _, _, _, _ => (s, [verdictBad i "c16 feed fields"])
       | "set" =>
         match parsePrice (fld j "p"), parseStore (fld j "store") with
         | some p, some store =>
           let m' := step s.model (.setPrice p)
           let diffs := (if res != "ok" then [verdictDiff i "result" "ok" res] else []) ++ storeDiff i m' store
-          finish i { s with model := m', ref := refWrite s.ref p, iStore := store } diffs
+          finish i { s with model := resync m' store, ref := refWrite s.ref p, iStore := store } diffs
         | _, _ => (s, [verdictBad i "c16 set fields"])
       | "endblock" =>
         match parseStore (fld j "store") with
@@ -222,7 +227,7 @@ def handle (s : S) (i : Nat) (j : Json) : S × List Json :=
           let m' := endBlock s.model time h
           let ref' := s.ref.filter (fun e => !specExpired s.model.params time.toNat h.toNat e.p)
           let diffs := (if res != "ok" then [verdictDiff i "result" "ok" res] else []) ++ storeDiff i m' store
-          finish i { s with model := m', ref := ref', iStore := store, lastEnd := some (time.toNat, h.toNat) } diffs
+          finish i { s with model := resync m' store, ref := ref', iStore := store, lastEnd := some (time.toNat, h.toNat) } diffs
         | _ => (s, [verdictBad i "c16 endblock fields"])
       | "get" =>
         match fStr? j "asset", parseAns j with
